@@ -253,6 +253,20 @@ def check(ctx):
         ctx.check(n_app == 1 and rec == by_name, "C16.R4", f"{sb.qualname}:emitter-shape", e.node, f"the emitter appends {n_app} time(s) and recurses into {sorted(rec)} (name buckets: {sorted(by_name)})", sb, e.node, detail="append once; recurse into every name bucket")
         order_ok = [norm(n.iter.value) if isinstance(n, ast.For) else "append" for n in e.node.body if isinstance(n, ast.For) or (isinstance(n, ast.Expr) and "result.append" in norm(n))]
         ctx.check(order_ok == ["before", "append", "after"], "C16.R4", f"{sb.qualname}:emitter-order", e.node, f"emission order is {order_ok}: elements marked before= must precede and after= must follow their target", sb, e.node, detail="before, element, after")
+    # ---------------- R7: an ordered dataclass is not handed to the JSON library as it is
+    ctx.rule("C16.R7", "PassThroughOptions(dataclasses=True): a dataclass is passed through untouched only when ordering left its fields in declaration order - the test compares each sorted field with the declared one (identity), a bare truth test of the field object is always true", floor=1)
+    so_ = model.func("apischema.serialization.SerializationMethodVisitor.object")
+    guards = [n for n in ast.walk(so_.node) if isinstance(n, ast.Call) and dotted(n.func) == "all" and n.args and isinstance(n.args[0], ast.GeneratorExp) and "zip(base_fields, fields_to_order)" in norm(n.args[0])]
+    ctx.require(len(guards) == 1, "serialization object(): comparison of the ordered fields with the declared ones not found")
+    elt = guards[0].args[0].elt
+    tg = guards[0].args[0].generators[0].target
+    names7 = [norm(x) for x in tg.elts] if isinstance(tg, ast.Tuple) else []
+    ok7 = isinstance(elt, ast.Compare) and len(elt.ops) == 1 and isinstance(elt.ops[0], (ast.Is, ast.Eq)) and len(names7) == 2 \
+        and {norm(elt.left), norm(elt.comparators[0])} == {names7[0], f"{names7[1]}.field"}
+    ctx.check(ok7, "C16.R7", f"{so_.qualname}:declaration-order", None,
+              f"`all({short(elt, 40)} for ...)` does not compare the ordered fields with the declared ones: with @order(['b', 'a']) the dataclass instance is returned as it is and the JSON library serializes it in declaration order (a, b) while serialize() without pass-through gives (b, a)",
+              so_, guards[0], detail="all(f is f2.field for f, f2 in zip(base_fields, fields_to_order))")
+
     # ---------------- R6: one ordering for the serialized method and the GraphQL field of a resolver
     ctx.rule("C16.R6", "resolver(serialized=True, ...) registers the serialized method with every option the two decorators share (order, alias, conversion, schema, error_handler, owner): the serialized object and the GraphQL type order the method alike", floor=5)
     rs = model.func("apischema.graphql.resolvers.resolver")
@@ -309,6 +323,7 @@ def check(ctx):
 
 
 def mutants(mb):
+    mb.add_text("dataclass-passthrough-ignores-order", "apischema/serialization/__init__.py", "            and all(f is f2.field for f, f2 in zip(base_fields, fields_to_order))\n", "            and all(f2.field for f, f2 in zip(base_fields, fields_to_order))\n", "C16.R7", "declaration-order")
     mb.add_text("resolver-serialized-order-dropped", "apischema/graphql/resolvers.py", "                    order=order,\n                    owner=owner,\n                )(func)", "                    owner=owner,\n                )(func)", "C16.R6", "order")
     O = "apischema/ordering.py"
     mb.add_text("groups-descending", O, "    for value in sorted(groups):", "    for value in sorted(groups, reverse=True):", "C16.R4", "ascending")
